@@ -773,3 +773,48 @@ func DefChunked(name, ty string, items []string) string {
 	fmt.Fprintf(&b, "Definition %s : list (%s) := List.concat [%s].\n", name, ty, strings.Join(parts, "; "))
 	return b.String()
 }
+
+// ---- scripted cases: a fixed prefix run before the random cases in every tier,
+// one (or a few) per family of defect that a seeded change once exposed, so that
+// catching them does not depend on the seed or the budget.
+
+// ScriptedC03 are coin-hour cases (function level, also signed through the block checker).
+func ScriptedC03() []*Case {
+	const T = uint64(1500000000)
+	return []*Case{
+		// CoinHours where bits(seconds)+bits(coins) = 65 and seconds*coins >= 2^64: the true
+		// accrual overflows the final addition (legacy: counts 0); a wrapped product would not
+		{Kind: "scripted-product-wraps-legacy", T: 1000 + (1<<33 - 1),
+			Ins:  []In{{Time: 1000, Coins: 1<<32 - 1, Hours: 18446744066023408255, Addr: 0}},
+			Outs: []TxOut{{Coins: 1<<32 - 1, Hours: 1000, Addr: 1}}},
+		// the same region without the legacy case: outputs take exactly the true accrual
+		{Kind: "scripted-product-wraps-value", T: 1000 + (1<<33 - 1),
+			Ins:  []In{{Time: 1000, Coins: 1<<32 - 1, Hours: 7, Addr: 0}},
+			Outs: []TxOut{{Coins: 1<<32 - 1, Hours: 7 + 10248191148, Addr: 1}}},
+		// a legacy-overflow input AFTER an input with hours: it must count 0, not the previous input's hours
+		{Kind: "scripted-legacy-after-nonzero", T: T,
+			Ins: []In{{Time: T, Coins: 1000000, Hours: 500, Addr: 0},
+				{Time: T - 7200, Coins: 10000000, Hours: MaxU64, Addr: 1}},
+			Outs: []TxOut{{Coins: 11000000, Hours: 1000, Addr: 2}}},
+		{Kind: "scripted-legacy-after-nonzero", T: T,
+			Ins: []In{{Time: T, Coins: 1000000, Hours: 500, Addr: 0},
+				{Time: T - 7200, Coins: 10000000, Hours: MaxU64, Addr: 1},
+				{Time: T, Coins: 1000000, Hours: 3, Addr: 3}},
+			Outs: []TxOut{{Coins: 12000000, Hours: 504, Addr: 2}}},
+		// three outputs whose hours overflow while the wrapped sum is not below the largest term
+		{Kind: "scripted-outputs-wrap-above-largest", T: T,
+			Ins: []In{{Time: T, Coins: 3000000, Hours: 1<<63 + 5, Addr: 0}},
+			Outs: []TxOut{{Coins: 1000000, Hours: 1 << 63, Addr: 1}, {Coins: 1000000, Hours: 1 << 63, Addr: 2},
+				{Coins: 1000000, Hours: 1 << 63, Addr: 3}}},
+		// outputs to the last hour / one hour too many, with accrual
+		{Kind: "scripted-exact", T: T,
+			Ins:  []In{{Time: T - 3600000, Coins: 2000000, Hours: 7, Addr: 0}},
+			Outs: []TxOut{{Coins: 2000000, Hours: 2007, Addr: 1}}},
+		{Kind: "scripted-one-too-many", T: T,
+			Ins:  []In{{Time: T - 3600000, Coins: 2000000, Hours: 7, Addr: 0}},
+			Outs: []TxOut{{Coins: 2000000, Hours: 2008, Addr: 1}}},
+	}
+}
+
+// ScriptedMono are (output, t1, t2) points for the accrued-hours group.
+func ScriptedMono() [][3]uint64 { return nil }
